@@ -662,11 +662,14 @@ fn add_comments(text: &str) -> String {
 // running the real compiler
 // ------------------------------------------------------------------------------------------------
 
-fn settings(loc: bool, ops: &str) -> Result<Settings, String> {
+fn settings(loc: bool, ops: &str, dir: &Path) -> Result<Settings, String> {
     let mut s = Settings::new().builder_loc_info(loc);
     for op in ops.split(',') {
         s = match op {
             "-" | "" => s,
+            // harness-only op (not sent to the model, which is about force/actions): the PARSER goes to a separate output
+            // root (as with cargo's OUT_DIR); where the actions go is still decided by ast / ist / default
+            "odr" => s.root_dir(dir.to_path_buf()).out_dir_root(dir.join("out")),
             "f0" => s.force(false),
             "f1" => s.force(true),
             "ast" => s.actions_in_source_tree(),
@@ -824,7 +827,7 @@ fn job(line: &str, work: &Path, out: &mut Vec<String>) {
     put!("edited", show_state(&before));
 
     // 4./5. two regenerations with the job's settings
-    let s = match settings(loc, ops) {
+    let s = match settings(loc, ops, &dir) {
         Ok(s) => s,
         Err(e) => {
             put!("status", format!("bad-job:{}", hex(&e)));
@@ -849,7 +852,15 @@ fn job(line: &str, work: &Path, out: &mut Vec<String>) {
     }
     put!(
         "request",
-        format!("run {} | {} | {}", if ops.is_empty() { "-" } else { ops }, needed_txt, show_state(&before))
+        format!(
+            "run {} | {} | {}",
+            {
+                let m: Vec<&str> = ops.split(',').filter(|o| *o != "odr" && !o.is_empty()).collect();
+                if m.is_empty() { "-".to_string() } else { m.join(",") }
+            },
+            needed_txt,
+            show_state(&before)
+        )
     );
     put!(
         "answer",
